@@ -233,3 +233,17 @@ claim("C12",
       "go/types + go/ssa of x/tools v0.29.0, default build configuration; the frozen rule table in lint/internal/rules/c12.go; math/big Add/Sub/Cmp/Sign/NewInt "
       "have their documented meaning; a non-nil transaction-level error returned by the asset functions makes the caller discard the whole transaction "
       "(TxProcessor reverts / rejects the block), so only the vm-error edge needs the local revert")
+
+claim("C01",
+      "nondeterminism-source scan over the VTA call-graph closure of execution/finalisation/sealing/hashing (goroutines, select, randomness, clock flows, map-iteration form classification, node-local store reads), order/dominance rules for the shared transition, switch-table agreement, value provenance of published versions",
+      "Decides structural necessary conditions of a deterministic state transition for every function reachable from Process, ApplyTxs, Finalize, Seal, "
+      "the account manager's merge/finalise/save and the hash/encode methods (about 900 functions): no goroutine, select or randomness; every wall-clock "
+      "value flows only into comparisons (the miner's selection), logs, metrics or the tracer, and the validator and the box executor pass an unlimited "
+      "time budget; every map iteration is a keyed copy, a commutative accumulation, a collect-then-sort, or one of 12 loops listed with the reason that "
+      "makes it order-insensitive (a new loop fails); the chain database is read only through block- or content-hash keyed methods (three reads that depend "
+      "on the node's stable pointer are recorded as finding D18); miner and validator run the same applyTx, then Finalize (votes pass, merge, finalise in "
+      "that order), then seal the product; the four tx-type tables are exhaustive over the dispatcher's 11 types; published change-log versions derive "
+      "from the parent's record, not from the provisional counter; the validator aborts on a bad transaction and on a gas mismatch. It does not decide "
+      "equality of hashes or account state between two executions, EVM arithmetic, or nondeterminism inside cgo/goleveldb.",
+      "VTA call graph over-approximates reachability; the closure stops at common/log, metrics, common/subscribe, store and store/leveldb; the 12 listed "
+      "loops are confirmed by reading, not proved; go/ssa + go/types of x/tools v0.29.0; rule table lint/internal/rules/c01.go")
